@@ -1,3 +1,167 @@
-import RlibModel.Model.Common
-/-! Line-protocol driver for engine `tensor` (stub: to be written by the engine's author). -/
-def main : IO Unit := pure ()
+import RlibModel.Model.Tensor
+/-! Line-protocol driver for engine `tensor` (property C19).
+
+Lists are comma separated without blanks, `-` is the empty list (rank 0).
+* `get  <dims> <idx>`                 — `from_vec(dims, 0..n).get_index(idx)`
+* `at   <dims> <idx>`                 — `t[idx]`, then `t[idx] = -1` and the list of storage positions that changed
+* `ctor <kind> <dims> <len>`          — `kind` ∈ vec | slice | new | read, data / tokens `0..len`
+* `iter <dims>`                       — `t[idx] = code(idx)` for every index, then `iter()`
+* `eq   <dimsA> <dimsB> <dataA> <dataB>`
+* `write <ty> <dims> <data>`          — `ty` ∈ i64 | str; the bytes of `Writable` (blank → `_`, newline → `/`)
+* `rt   <ty> <chunk> <dims> <data>`   — write, read back through a `Reader` fed `chunk` bytes at a time
+-/
+open Rlib Rlib.Tensor
+
+def showList (xs : List String) : String := "[" ++ ",".intercalate xs ++ "]"
+
+def escape (cs : List Char) : String :=
+  String.ofList (cs.map (fun c => if c = ' ' then '_' else if c = '\n' then '/' else c))
+
+def allPos (dims : List Nat) : Bool := dims.all (· > 0)
+
+/-- all valid indices in lexicographic order (spec-side enumeration, independent of `unflat`) -/
+def allIdx : List Nat → List (List Nat)
+  | [] => [[]]
+  | d :: ds => (List.range d).flatMap (fun i => (allIdx ds).map (i :: ·))
+
+def code (idx : List Nat) : Int := idx.foldl (fun (acc : Int) (i : Nat) => acc * 10 + Int.ofNat i) 0
+
+def parseList? (s : String) : Option (List String) :=
+  if s = "-" then some [] else some (s.splitOn ",")
+
+def lexLtB : List Nat → List Nat → Bool
+  | i :: is, j :: js => i < j || (i == j && lexLtB is js)
+  | _, _ => false
+
+def handleGet (dims idx : List Nat) : String :=
+  if idx.length ≠ dims.length ∨ ¬ allPos dims then "M INVALID | V INVALID | S any" else
+  let s := if decide (InRange dims idx) then toString (flat dims idx) else "panic:assert"
+  answer (showExcept toString (getIndexU dims idx)) s
+
+def handleAt (dims idx : List Nat) : String :=
+  if idx.length ≠ dims.length ∨ ¬ allPos dims then "M INVALID | V INVALID | S any" else
+  let n := prod dims
+  let data : List Int := (List.range n).map (fun (k : Nat) => Int.ofNat k)
+  match fromVec dims data with
+  | .error e => answer e.toString "any"
+  | .ok t =>
+    let m :=
+      match index t idx with
+      | .error e => e.toString
+      | .ok v =>
+        match setAt t idx (-1) with
+        | .error e => s!"v={v} set={e}"
+        | .ok t' =>
+          let changed := (List.range n).filter (fun k => t'.data[k]? != t.data[k]?)
+          s!"v={v} set={showNats changed}"
+    let s := if decide (InRange dims idx) then s!"v={flat dims idx} set=[{flat dims idx}]" else "panic:assert"
+    answer m s
+
+def handleCtor (kind : String) (dims : List Nat) (len : Nat) : String :=
+  let data : List Int := (List.range len).map (fun (k : Nat) => Int.ofNat k)
+  let zero := dims.any (· == 0)
+  let showT (r : Except Panic (Tensor Int)) : String :=
+    match r with
+    | .error e => e.toString
+    | .ok t => s!"ok dims={showNats t.dims} len={t.data.length}"
+  match kind with
+  | "vec" =>
+    answer (showT (fromVec dims data)) (if zero ∨ prod dims ≠ len then "panic:assert" else s!"ok dims={showNats dims} len={len}")
+  | "slice" =>
+    answer (showT (fromSlice dims data)) (if zero ∨ prod dims ≠ len then "panic:assert" else s!"ok dims={showNats dims} len={len}")
+  | "new" =>
+    answer (showT (new dims (7 : Int))) (if zero then "panic:assert" else s!"ok dims={showNats dims} len={prod dims}")
+  | "read" =>
+    if ¬ zero ∧ len < prod dims then "M INVALID | V INVALID | S any" else
+    let toks : List (List Char) := data.map (fun k => (toString k).toList)
+    let r := read dims (tokRd (fun cs => (String.ofList cs).toInt?.getD 0) (0 : Int)) toks
+    answer (showT (match r with | .error e => .error e | .ok (t, _) => .ok t))
+      (if zero then "panic:assert" else s!"ok dims={showNats dims} len={prod dims}")
+  | _ => "M INVALID | V INVALID | S any"
+
+def handleIter (dims : List Nat) : String :=
+  if ¬ allPos dims then "M INVALID | V INVALID | S any" else
+  match new dims (0 : Int) with
+  | .error e => answer e.toString "any"
+  | .ok t0 =>
+    let r := (allIdx dims).foldl (fun (acc : Except Panic (Tensor Int)) idx =>
+      match acc with
+      | .error e => .error e
+      | .ok t => setAt t idx (code idx)) (.ok t0)
+    let m := match r with
+      | .error e => e.toString
+      | .ok t => showInts (iter t)
+    let s := showInts ((List.range (prod dims)).map (fun k => code (unflat dims k)))
+    answer m s
+
+def handleEq (da db : List Nat) (xa xb : List Int) : String :=
+  if da.length ≠ db.length then "M INVALID | V INVALID | S any" else
+  match fromVec da xa, fromVec db xb with
+  | .ok t, .ok u => answer (showBool (eq t u)) (showBool (decide (da = db ∧ xa = xb)))
+  | _, _ => "M INVALID | V INVALID | S any"
+
+def renderTok (ty : String) (tok : String) : List Char :=
+  if ty = "i64" then (toString (tok.toInt?.getD 0)).toList else tok.toList
+
+def validTok (ty : String) (tok : String) : Bool :=
+  if ty = "i64" then tok.toInt?.isSome else (!tok.isEmpty && tok.toList.all (fun c => !isWs c))
+
+def handleWrite (ty : String) (dims : List Nat) (data : List String) : String :=
+  if ¬ allPos dims ∨ prod dims ≠ data.length ∨ ¬ data.all (validTok ty) then "M INVALID | V INVALID | S any" else
+  match fromVec dims data with
+  | .error e => answer e.toString "any"
+  | .ok t =>
+    let m := match writeText (renderTok ty) t with
+      | .error e => e.toString
+      | .ok cs => escape cs
+    let s := escape (renderPieces (renderTok ty) (specPieces dims data))
+    answer m s
+
+def handleRt (ty : String) (dims : List Nat) (data : List String) : String :=
+  if ¬ allPos dims ∨ prod dims ≠ data.length ∨ ¬ data.all (validTok ty) then "M INVALID | V INVALID | S any" else
+  -- elements are kept in canonical text form (`i64`: the decimal rendering of the value)
+  let canon : List String := data.map (fun d => String.ofList (renderTok ty d))
+  match fromVec dims canon with
+  | .error e => answer e.toString "any"
+  | .ok t =>
+    let m := match writeText (fun (s : String) => s.toList) t with
+      | .error e => e.toString
+      | .ok cs =>
+        match read dims (tokRd (fun cs => String.ofList cs) "") (splitWs cs) with
+        | .error e => e.toString
+        | .ok (u, rest) => s!"eq={showBool (eq u t)} data={showList u.data} eof={showBool rest.isEmpty}"
+    answer m s!"eq=true data={showList canon} eof=true"
+
+def handle (line : String) : String :=
+  match tokens line with
+  | ["get", d, i] =>
+    match parseNatsComma? d, parseNatsComma? i with
+    | some dims, some idx => handleGet dims idx
+    | _, _ => badLine line
+  | ["at", d, i] =>
+    match parseNatsComma? d, parseNatsComma? i with
+    | some dims, some idx => handleAt dims idx
+    | _, _ => badLine line
+  | ["ctor", kind, d, len] =>
+    match parseNatsComma? d, parseNat? len with
+    | some dims, some len => handleCtor kind dims len
+    | _, _ => badLine line
+  | ["iter", d] =>
+    match parseNatsComma? d with
+    | some dims => handleIter dims
+    | _ => badLine line
+  | ["eq", da, db, xa, xb] =>
+    match parseNatsComma? da, parseNatsComma? db, parseIntsComma? xa, parseIntsComma? xb with
+    | some da, some db, some xa, some xb => handleEq da db xa xb
+    | _, _, _, _ => badLine line
+  | ["write", ty, d, x] =>
+    match parseNatsComma? d, parseList? x with
+    | some dims, some data => handleWrite ty dims data
+    | _, _ => badLine line
+  | ["rt", ty, _chunk, d, x] =>
+    match parseNatsComma? d, parseList? x with
+    | some dims, some data => handleRt ty dims data
+    | _, _ => badLine line
+  | _ => badLine line
+
+def main : IO Unit := driverMain handle
